@@ -422,6 +422,15 @@ def gen_md(rng, **kw):
             Bm = [[F(rng.choice([-2, -1, 1, 2, 3])) if rng.random() < 0.5 else F(0)
                    for _ in range(ne)] for _ in range(m)]
             cv = [F(rng.randint(-8, 8), 2) for _ in range(m)]
+            if len(c['outs']) > 1 and rng.random() < 0.5:
+                # the last output depends on the inputs only through the other states, and only the
+                # structurally nonzero partials are declared
+                m0 = int(np.prod(c['outs'][0]['shape']))
+                m_first = sum(int(np.prod(od['shape'])) for od in c['outs'][:-1])
+                for r in range(m_first, m):
+                    Bm[r] = [F(0)] * ne
+                    A[r][rng.randrange(m_first)] = F(rng.choice([-1, 1]))
+                c['structural_partials'] = True
             c['kind'] = 'implicit'
             c['A'] = [[rat(v) for v in row] for row in A]
             c['B'] = [[rat(v) for v in row] for row in Bm]
@@ -935,11 +944,22 @@ def make_polycomp_class():
             c = self.options['cdef']
             meth = c.get('partials', 'dense')
             kw = {'method': 'cs'} if meth == 'cs' else {}
-            for o in c['outs']:
-                for o2 in c['outs']:
+            structural = bool(c.get('structural_partials'))
+            self._decl = set()
+            for k, o in enumerate(c['outs']):
+                rows = slice(self._ooffs[k], self._ooffs[k + 1])
+                for k2, o2 in enumerate(c['outs']):
+                    blk = self._A[rows, self._ooffs[k2]:self._ooffs[k2 + 1]]
+                    if structural and not np.any(blk):
+                        continue        # only the structurally nonzero partials are declared
                     self.declare_partials(o['name'], o2['name'], **kw)
-                for i in c['ins']:
+                    self._decl.add((o['name'], o2['name']))
+                for j, i in enumerate(c['ins']):
+                    cols = [e for e, (jj, ee) in enumerate(c['in_elems']) if jj == j]
+                    if structural and not (cols and np.any(self._B[rows][:, cols])):
+                        continue
                     self.declare_partials(o['name'], i['name'], **kw)
+                    self._decl.add((o['name'], i['name']))
 
         def _x(self, inputs):
             c = self.options['cdef']
@@ -984,8 +1004,12 @@ def make_polycomp_class():
             for k, o in enumerate(c['outs']):
                 rows = slice(self._ooffs[k], self._ooffs[k + 1])
                 for k2, o2 in enumerate(c['outs']):
-                    partials[o['name'], o2['name']] = self._A[rows, self._ooffs[k2]:self._ooffs[k2 + 1]]
+                    if (o['name'], o2['name']) in self._decl:
+                        partials[o['name'], o2['name']] = \
+                            self._A[rows, self._ooffs[k2]:self._ooffs[k2 + 1]]
                 for j, i in enumerate(c['ins']):
+                    if (o['name'], i['name']) not in self._decl:
+                        continue
                     J = np.zeros((self._osizes[k], self._isizes[j]))
                     for e, (jj, ee) in enumerate(c['in_elems']):
                         if jj == j:
